@@ -280,7 +280,9 @@ func TestJSON(t *testing.T) {
 		if nonTrivialValue(v, ty) {
 			pk.NonTrivial(fmt.Sprintf("json|%s|%s", ty.Canon(), show(v)), cs)
 		}
-		pk.Judge(rt, cs, checkJSON(cs))
+		f := checkJSON(cs)
+		cs.Route = jsonRouteOf(f) // the replay file pins the failing route
+		pk.Judge(rt, cs, f)
 	})
 }
 
